@@ -1,8 +1,20 @@
+#![recursion_limit = "4096"]
 //! Contract harnesses for exmex (see /verif/DESIGN.md).  Every harness body is generic over
 //! `src::Src`, so the same function is the Kani proof obligation and the native replay program.
 #[macro_use]
 pub mod src;
+pub mod c04;
+pub mod c07;
+pub mod c15;
 pub mod u1;
+pub mod gen_float_table;
+pub mod gen_value_table;
+pub mod u4;
+pub mod u5;
+pub mod u6;
+pub mod u7;
+pub mod vgen;
+pub mod u8_float;
 
 use src::Q;
 pub type NativeHarness = fn(&mut Q);
@@ -10,7 +22,16 @@ pub type NativeHarness = fn(&mut Q);
 /// name -> native instantiation of every harness (used by /verif/replay)
 pub fn registry() -> Vec<(&'static str, NativeHarness)> {
     let mut v: Vec<(&'static str, NativeHarness)> = vec![];
+    v.extend(c04::registry());
+    v.extend(c07::registry());
+    v.extend(c15::registry());
     v.extend(u1::registry());
+    v.extend(u4::registry());
+    v.extend(u5::registry());
+    v.extend(u6::registry());
+    v.extend(u7::registry());
+    v.extend(vgen::registry());
+    v.extend(u8_float::registry());
     v
 }
 
